@@ -205,6 +205,10 @@ func ValidateTokenExchangeRequest(
 		return nil, nil, oidc.ErrInvalidRequest().WithDescription("subject_token_type missing")
 	}
 
+	if oidcTokenExchangeRequest.ActorToken != "" && oidcTokenExchangeRequest.ActorTokenType == "" {
+		return nil, nil, oidc.ErrInvalidRequest().WithDescription("actor_token_type missing")
+	}
+
 	client, err := AuthorizeTokenExchangeClient(ctx, clientID, clientSecret, exchanger)
 	if err != nil {
 		return nil, nil, err
